@@ -68,7 +68,7 @@ def parseTriple (xs : List Rat) : Option (PC Rat × PD Rat × PD Rat) := do
   let b ← mkPD ((xs.drop 10).take 5)
   pure (c, a, b)
 
-partial def parseTriples (n : Nat) (xs : List Rat) : Option (List (PC Rat × PD Rat × PD Rat) × List Rat) :=
+def parseTriples (n : Nat) (xs : List Rat) : Option (List (PC Rat × PD Rat × PD Rat) × List Rat) :=
   match n with
   | 0 => some ([], xs)
   | n + 1 => do
@@ -144,7 +144,7 @@ def applyOps (W : World) (clean : Bool) (s : St) (ops : List Op) : Option St × 
       let bad := guardBad || (clean && !opOk s op)
       let (s', r, o) := step W s op
       let txt := match r, o with
-        | .ok, some out => if (freshOut W s').2 = some out then "ok fresh" else "ok stale"
+        | .ok, some out => if freshOut W s = (.ok, some out) then "ok fresh" else "ok stale"
         | r, _ => fmtRes r
       let txt := if bad then txt ++ " GUARD-VIOLATED" else txt
       (if r = .crash then none else some s', txt)
